@@ -35,7 +35,11 @@ keeps the blanks); after round 4: `START` + an over-long name (OSError), the com
 (aliasing between variables; a list containing itself → RecursionError), and — found when print texts that look like console markup
 were added to the generators — `PRINT [/] x`, `FOO [/] x` or a faulty line with such text made `duckling compile` raise rich's
 MarkupError instead of reporting, and `PRINT [red] alert` was reported as ` alert` (fix: 045314b: user text is escaped before it is
-interpolated into rich markup). The model is a model of the repaired tree.
+interpolated into rich markup); in session 4, **`$STRING 1+1+…+1` with about a thousand terms → RecursionError** out of
+`Operator.solve` (fix: 2643731: the parse tree of a chain of equal-rank operators is as deep as the chain is long and is solved
+recursively; `Tokenizer.tokenize` now reports ExceededLimitError — found because the round-8 seeded change C17-p *relied* on that crash
+to make a later compilation's result depend on an earlier one; C09 now compiles flat expressions of 300 … 20 000 operands in every
+evaluating context). The model is a model of the repaired tree.
 
 ### 10.2 Known findings (recorded in `known_findings.json`, not repaired)
 
@@ -101,6 +105,26 @@ interpolated into rich markup). The model is a model of the repaired tree.
   names among any set of names in scope, TRUE/FALSE, string literals — each leaf by an `Atom` lemma pair (closed by a delimiter / by
   the end of the text), so that only parenthesised groups, `!( )`, signed/decimal literals and T/F-names inside compound
   expressions remain outside the scanner theorems.
+* **Session 4 theorems.** *Parentheses* (C04; Lemmas/LexGroup, EvalGroup): a parenthesised group `( t )` / `!( t )` around ANY balanced
+  text `t` is ONE token for the scanner (the group class's depth / in-string bookkeeping as a fold `grpWalk`, one step lemma per
+  character, induction over the inner text; the Boolean and Variable classes give up on `(` / `!` first and are black-listed), the
+  evaluator's recursion through the scanner is independent of the model's fuel (`eval_fuel_mono`: whatever an evaluation returns
+  other than "out of fuel" it returns for any larger fuel — value tokens, trees and whole texts by one mutual induction), tree building
+  preserves a weight that bounds the fuel an evaluation needs (`reduceAll_weight`), hence `C04_group_value`: `tokenize` of a flat
+  expression whose leaves include groups is the reference precedence parse in which every group leaf has the value `tokenize` gives the
+  text between its parentheses (negated for `!( )`) — parentheses override precedence to any nesting depth by re-application —,
+  `C04_redundant_parens` (`( t )` evaluates to exactly what `t` does) and `C04_not_value`.  Guard: the model's own evaluation of `t` is
+  not its "fuel ran out" answer (sufficiency of the fuel for arbitrary text is not proved).  *WHILE* (C06): `WhileRuns`, a big-step
+  relation with no budget and no limit, and `C06_while_sound` / `C06_while_complete`: the loop returns `o` iff the iterations written
+  out one after the other end in `o`, for any budget that is large enough.  *Parser soundness on ANY text* (C03; Lemmas/TabSound):
+  `C03_no_line_dropped` — whenever `parse_document` succeeds, the tree's code lines in document order are source lines in source order
+  and every non-blank, non-triple-quote line is among them (loop invariant over `stepLine` with the recursive call abstracted, then
+  induction over the recursion).  *Depth exactness* (C14): `C14_nest_exact` — `k` running IF/ELIF/ELSE blocks nested around stack-free
+  code overflow with `d` stacks to spare iff `d < k`, for every `k` and `d` (ELSE-in-ELSE is a kernel-checked instance).
+* **Process-state snapshot** (session 4): the C17 harness now compares, before and after every history, the interpreter's settings
+  (recursion limit, integer-digit limit, working directory, environment, decimal context, warning filters, thread count, `sys.path`) and
+  every module-level and class-level attribute of every loaded `ducklingscript` module (plain introspection, no hook) — what DESIGN §5/C17
+  planned and the construction phase had left out.
 * **Tighter tie for the scanner** (session 3): the correspondence now also compares the scanner's TOKEN LIST
   (`Tokenizer.__convert_string`: classes, operator texts, leaf values, inner texts and `!` flags of groups) with the model's `lex` —
   the very function `lex_digits`, `lex_name`, `lex_flat`, `lex_flatB` are about — on structured expressions in random layouts and on
@@ -160,10 +184,13 @@ interpolated into rich markup). The model is a model of the repaired tree.
 * Same session, 6-seed sweep: C02 took two minutes for two seeds because the general program stream drew evaluated loop counts in the
   thousands (nested) and `$ENTER 2^70` (D19 under another family): time-outs, not alarms, but the quick tier must stay quick —
   evaluated counts of the general stream are reduced modulo 5 and C02 leaves the D19 probe to C09.
+* C17 (session 4, first run of the new host-resources family): a history step that re-used a Compiler object was compared with a fresh
+  compile under the options written on the STEP, while a re-used Compiler keeps the options it was BUILT with (stack limit 100 vs 63:
+  traces of different length). Generator error; steps that share a Compiler now share its options, as the older families did.
 
 ### 10.5 Seeded changes (`seeded/<id>/`: patch.diff, demo.py, meta.json) and the checks that catch them
 
-Round 1 (`-a`, `-b`), round 2 (`-c`, `-d`), round 3 (`-e`, `-f`), round 4 (`-g`, `-h`), round 5 (`-i`, `-j`), round 6 (`-k`, `-l`) and round 7 (`-m`, `-n`); (round 4: the sub-agents were told how the harness
+Round 1 (`-a`, `-b`), round 2 (`-c`, `-d`), round 3 (`-e`, `-f`), round 4 (`-g`, `-h`), round 5 (`-i`, `-j`), round 6 (`-k`, `-l`), round 7 (`-m`, `-n`), round 8 (`-o`, `-p`) and round 9 (`-q`, `-r`); (round 4: the sub-agents were told how the harness
 works — reference interpreter, formal model, tens of thousands of generated programs — and asked for the corner it does not look
 into). Round 3: the sub-agents were asked for changes in shared
 infrastructure that break the property indirectly and only for particular values, orders, nesting shapes, option combinations,
@@ -268,6 +295,20 @@ faulty at a LATER evaluation, functions declared again with the same text on oth
 "unchanged function is not re-registered"); (8) textually identical unknown lines in several files entered from ONE importer line
 (grouped START, `$START "part"+i` in a loop), and unknown words that are also the name of a function, parameter or variable
 (C16-m, C16-n).
+
+Round 8 (`-o`, `-p`, the other ten properties, twenty changes; asked for a conjunction of circumstances or a HISTORY, in shared
+infrastructure) was first MISSED in six of twenty cases. One trigger was a genuine defect of the unchanged code (a thousand-term flat
+expression → RecursionError; fix: 2643731). Built in: (1) *the deepest programs the command line can be asked for* — runaway and
+deepest-legal recursion at stack limits 150–200 given on the command line, in the project file or in the home file must be REPORTED
+(C19-o: one more interpreter frame per stack level; C09/C14 had the family, C19 had not); (2) *a valid script after a project-file
+compilation on the same Compiler / options object* (C01-p: the project's settings written onto the caller's options object) and
+*separator characters inside a line* of a script given as one string (C01-o: `str.splitlines`); (3) *interpreter-level process state*
+— recursion limit, digit limit, cwd, environment, every module-/class-level attribute of the package compared before/after each
+history, and programs whose outcome depends on the host's headroom after compilations under large limits (C17-p: a context manager
+without try/finally leaks a raised recursion limit after a failed compile); (4) *the print log after other compilations on the same
+Compiler* — printing-then-failing, printing-then-succeeding, failing inside an import (C18-p: the Compiler owns the log);
+(5) *defining constructs used a second time* — the same function name defined validly before, the construct inside a function run
+twice, in a file imported twice (C20-o: the name check skipped for a re-definition).
 
 | id | property | change | caught by |
 |---|---|---|---|
